@@ -91,6 +91,7 @@ func (fv *FuncVer) addQuery(st *State, kind, anchor string, pos token.Pos, goal 
 	if goal == nil {
 		return
 	}
+	goal = fv.skolemize(goal)
 	q := &Query{Assumptions: append([]*Term(nil), st.pc...), Goal: goal, Trace: append([]string(nil), st.trace...)}
 	ob.Queries = append(ob.Queries, q)
 }
@@ -1185,4 +1186,28 @@ func (fv *FuncVer) finalizeNames() {
 	}
 	_ = sort.Strings
 	_ = ast.Print
+}
+
+
+// skolemize replaces the universally quantified variables of a goal by fresh
+// constants (validity preserving), so that the engine-side instantiation and
+// the solvers' E-matching see ground terms.
+func (fv *FuncVer) skolemize(g *Term) *Term {
+	switch {
+	case g.Q != nil && g.Q.Forall:
+		bind := map[*Term]*Term{}
+		for _, v := range g.Q.Vars {
+			bind[v] = fv.ctx.Fresh("sk_"+v.Op, v.Sort)
+		}
+		return fv.skolemize(substTerm(g.Q.Body, bind, map[*Term]*Term{}))
+	case g.Op == "and":
+		args := make([]*Term, len(g.Args))
+		for i, a := range g.Args {
+			args[i] = fv.skolemize(a)
+		}
+		return And(args...)
+	case g.Op == "=>" && len(g.Args) == 2:
+		return Implies(g.Args[0], fv.skolemize(g.Args[1]))
+	}
+	return g
 }
